@@ -12,10 +12,18 @@ import common
 from common import finish
 from props import c03, c19
 
-C04_NODE = ("finalized-raise-not-atomic", "accepts-invalid-via-sync:height", "reject-changes-state-via-sync:height", "state-mismatch:finalized", "delete-finalized", "tiebreak-replaces-finalized-tip", "events-mismatch", "restart-fails", "tiebreak-refused")
-C04_SYNC = ("finalized-height-decreased", "finalized-block-replaced")
+C04_NODE = ("finalized-raise-not-atomic", "accepts-invalid-via-sync:height", "reject-changes-state-via-sync:height", "state-mismatch:finalized", "delete-finalized", "tiebreak-replaces-finalized-tip",
+            # finalize events only (one event per raise, or several that lead from the old to the new height): the other events belong to C03
+            "events-mismatch:finalize",
+            # the block served at a height that was ever reported finalized (read after every step, before anything else is judged)
+            "finalized-block-replaced", "finalized-block-missing", "finalized-height-decreased", "observe:finalized",
+            # a node with finalized blocks that does not come back serves none of them
+            "restart-fails:finalized", "tiebreak-refused",
+            # VERIF_EXPERIMENTAL=1 only: genesis block at a height > 0
+            "genesis-height:")
+C04_SYNC = ("finalized-height-decreased", "finalized-block-replaced", "finalize-events:sync", "finalized-behind-precommit:sync")
 
-C04_NET = ("net:finalized-mismatch", "net:finalized-block-replaced", "net:finalized-block-missing")
+C04_NET = ("net:finalized-mismatch", "net:finalized-block-replaced", "net:finalized-block-missing", "net:finalize-events", "net:finalized-height-decreased", "net:observe:finalized")
 
 def sync_part(ctx):
     cov = c19.run_sync(ctx, lambda k: k.startswith(C04_SYNC))
@@ -24,6 +32,10 @@ def sync_part(ctx):
     # tie breaks and fast syncs
     from props import net
     res.update(net.run_net(ctx, lambda k: k.startswith(C04_NET), parts=("honest_exh", "honest_sim", "byz_sim", "chg_sim")))
+    common.log("[net] finality raises whose finalize events were compared: %d (of which reached through a synchronisation: %d), finalize events: %d" % (
+        res.get("net_finality_raises_with_events_compared", 0), res.get("net_finality_raises_through_sync_with_events_compared", 0), res.get("net_finalize_events_compared", 0)))
+    if not ctx.violations and (res.get("net_finality_raises_with_events_compared", 0) < 5 or res.get("net_finality_raises_through_sync_with_events_compared", 0) < 3):
+        raise common.Inconclusive("network replay: too few finality raises (in all / through a synchronisation) whose finalize events were compared: vacuous for the events on the sync / fork-choice paths")
     res.update(crash_part(ctx))
     return res
 
